@@ -19,6 +19,7 @@
 package main
 
 import (
+	"encoding/json"
 	"fmt"
 	"io"
 	"os"
@@ -67,6 +68,23 @@ const (
 
 var timeouts = []time.Duration{10 * time.Second, 7 * time.Second}
 
+const createdWithTimeout = 90 * time.Second // what a command is created with (handbook: 90 s unless the caller sets another)
+
+// tmo is the response timeout of command c in this scenario.
+func (w *world) tmo(c int) time.Duration {
+	if w.p.defaultTimeout {
+		return createdWithTimeout
+	}
+	return timeouts[c]
+}
+
+func (p params) kind(c int) string {
+	if c < len(p.kinds) && p.kinds[c] != "" {
+		return p.kinds[c]
+	}
+	return "transition"
+}
+
 func mkTarget(s string) cc.MesosCommandTarget {
 	return cc.MesosCommandTarget{AgentId: mesos.AgentID{Value: "agent-" + s}, ExecutorId: mesos.ExecutorID{Value: "exec-" + s}, TaskId: mesos.TaskID{Value: "task-" + s}}
 }
@@ -85,6 +103,7 @@ type sendRec struct {
 	seq      int
 	at       time.Duration
 	failed   bool
+	listed   string // what the copy handed to the send function lists as its targets ("t1", "t0+t1", ...)
 }
 
 // one reply object built by the simulator and (maybe) handed to ProcessResponse
@@ -116,8 +135,13 @@ type params struct {
 	alphabet  []beh
 	direct    bool // concurrent Servent.RunCommand calls instead of the queue
 	timerRace bool // timers may fire while threads are still runnable => no timing clauses
-	q, t      vrt.Bounds
-	doc       string
+	// kinds: per command "transition" (default) or "hook" (MesosCommand_TriggerHook, answered by
+	// MesosCommandResponse_TriggerHook); defaultTimeout: the commands keep the response timeout they are
+	// created with (90 s) instead of the 10 s / 7 s the other scenarios set
+	kinds          []string
+	defaultTimeout bool
+	q, t           vrt.Bounds
+	doc            string
 }
 
 type world struct {
@@ -180,16 +204,16 @@ func (w *world) reply(cmd cc.MesosCommand, originC, originT int, id xid.ID, send
 		}
 	}
 	tag := fmt.Sprintf("c%d/t%d#%d", originC, originT, k)
-	obj := &cc.MesosCommandResponse_Transition{
-		MesosCommandResponseBase: cc.MesosCommandResponseBase{
-			CommandName:   cmd.GetName(),
-			CommandId:     id,
-			EnvironmentId: cmd.GetEnvironmentId(),
-			ErrorString:   errStr,
-			MessageType:   "MesosCommandResponse",
-		},
-		CurrentState: tag,
-		TaskId:       sender.TaskId.Value,
+	base := cc.MesosCommandResponseBase{
+		CommandName:   cmd.GetName(),
+		CommandId:     id,
+		EnvironmentId: cmd.GetEnvironmentId(),
+		ErrorString:   errStr,
+		MessageType:   "MesosCommandResponse",
+	}
+	var obj cc.MesosCommandResponse = &cc.MesosCommandResponse_Transition{MesosCommandResponseBase: base, CurrentState: tag, TaskId: sender.TaskId.Value}
+	if w.p.kind(originC) == "hook" {
+		obj = &cc.MesosCommandResponse_TriggerHook{MesosCommandResponseBase: base, TaskId: sender.TaskId.Value}
 	}
 	d := &delivery{obj: obj, originC: originC, originT: originT, k: k, claimC: w.cmdIndex(id), sender: tgtIndex(sender), isErr: errStr != ""}
 	w.dels = append(w.dels, d)
@@ -221,13 +245,13 @@ func (w *world) handOver(d *delivery, sender cc.MesosCommandTarget, delay time.D
 func (w *world) send(cmd cc.MesosCommand, rcv cc.MesosCommandTarget) error {
 	c, t := w.cmdIndex(cmd.GetId()), tgtIndex(rcv)
 	w.seq++
-	s := &sendRec{cmd: c, tgt: t, seq: w.seq, at: vrt.VNow()}
+	s := &sendRec{cmd: c, tgt: t, seq: w.seq, at: vrt.VNow(), listed: listedTargets(cmd)}
 	w.sends = append(w.sends, s)
 	b, ok := w.behOf(c, t)
 	if !ok {
 		return nil // oracle flags the stray send; the stranger stays silent
 	}
-	tmo := timeouts[c]
+	tmo := w.tmo(c)
 	switch b {
 	case bReply:
 		w.handOver(w.reply(cmd, c, t, cmd.GetId(), rcv, ""), rcv, 0)
@@ -257,6 +281,37 @@ func (w *world) send(cmd cc.MesosCommand, rcv cc.MesosCommandTarget) error {
 		w.handOver(w.reply(cmd, c, t, cmd.GetId(), rcv, ""), rcv, tmo+tmo/2)
 	}
 	return nil
+}
+
+// listedTargets: the targets a command lists on the wire (the executor reads them from the JSON the
+// scheduler's send function marshals, see core/task/scheduler.go sendCommand).
+func listedTargets(cmd cc.MesosCommand) string {
+	b, err := json.Marshal(cmd)
+	if err != nil {
+		return "unmarshalable:" + err.Error()
+	}
+	var head struct {
+		TargetList []cc.MesosCommandTarget `json:"targetList"`
+	}
+	if err := json.Unmarshal(b, &head); err != nil {
+		return "unparsable:" + err.Error()
+	}
+	var l []string
+	for _, t := range head.TargetList {
+		switch i := tgtIndex(t); i {
+		case -1:
+			l = append(l, "unknown")
+		case strangerIdx:
+			l = append(l, "stranger")
+		default:
+			l = append(l, fmt.Sprintf("t%d", i))
+		}
+	}
+	sort.Strings(l)
+	if len(l) == 0 {
+		return "nobody"
+	}
+	return strings.Join(l, "+")
 }
 
 // inTime is the number of replies a behaviour produces before the timeout.
@@ -336,14 +391,25 @@ func scenario(p params) *vrt.Scenario {
 		vrt.Logf("assign %s arrival %v", behString(p, w.assign), w.order)
 
 		w.servent = cc.NewServent(w.send)
-		cmds := make([]*cc.MesosCommand_Transition, n)
+		cmds := make([]cc.MesosCommand, n)
 		for c := 0; c < n; c++ {
 			var rcv []cc.MesosCommandTarget
 			for _, ti := range p.targets[c] {
 				rcv = append(rcv, allTargets[ti])
 			}
-			cmds[c] = cc.NewMesosCommand_Transition(uid.ID(fmt.Sprintf("env%d", c)), rcv, "STANDBY", "CONFIGURE", "CONFIGURED", nil)
-			cmds[c].ResponseTimeout = timeouts[c] // as core/task/manager.go does for CONFIGURE
+			if p.kind(c) == "hook" {
+				h := cc.NewMesosCommand_TriggerHook(uid.ID(fmt.Sprintf("env%d", c)), rcv)
+				if !p.defaultTimeout {
+					h.ResponseTimeout = timeouts[c]
+				}
+				cmds[c] = h
+			} else {
+				tr := cc.NewMesosCommand_Transition(uid.ID(fmt.Sprintf("env%d", c)), rcv, "STANDBY", "CONFIGURE", "CONFIGURED", nil)
+				if !p.defaultTimeout {
+					tr.ResponseTimeout = timeouts[c] // as core/task/manager.go does for CONFIGURE
+				}
+				cmds[c] = tr
+			}
 			w.ids = append(w.ids, cmds[c].GetId())
 		}
 
@@ -466,6 +532,8 @@ func isNil(r cc.MesosCommandResponse) bool {
 		return v == nil
 	case *cc.MesosCommandResponse_Transition:
 		return v == nil
+	case *cc.MesosCommandResponse_TriggerHook:
+		return v == nil
 	case *cc.MesosCommandMultiResponse:
 		return v == nil
 	}
@@ -575,6 +643,11 @@ func (w *world) oracle() (out []vrt.Violation) {
 	for _, s := range w.sends {
 		if _, ok := w.behOf(s.cmd, s.tgt); !ok {
 			fail("sent-to-non-target", "send function called with command index %d for receiver index %d which is not a (command, target) pair of the scenario", s.cmd, s.tgt)
+			continue
+		}
+		// what goes to target t is the command for t: the executor acts on the targets the copy lists
+		if want := fmt.Sprintf("t%d", s.tgt); s.listed != want {
+			fail("sent-copy-not-addressed-to-its-receiver:"+w.p.kind(s.cmd), "c%d: the copy handed to the send function for receiver t%d lists the targets %s", s.cmd, s.tgt, s.listed)
 		}
 	}
 
@@ -592,15 +665,17 @@ func (w *world) oracle() (out []vrt.Violation) {
 		}
 		cp := w.compl[c][0]
 
-		// within its response timeout, counted from when it was sent to the tasks
-		var lastSend *sendRec
+		// within its response timeout, counted from when it began to be sent to the tasks: the timeout belongs to
+		// the command, not to each target in turn (the first send marks the moment the queue took the command up;
+		// time spent queueing behind another command is not counted)
+		var firstSend *sendRec
 		for _, s := range w.sends {
-			if s.cmd == c && (lastSend == nil || s.seq > lastSend.seq) {
-				lastSend = s
+			if s.cmd == c && (firstSend == nil || s.seq < firstSend.seq) {
+				firstSend = s
 			}
 		}
-		if timing && lastSend != nil && cp.at > lastSend.at+timeouts[c]+eps {
-			fail("completed-after-timeout", "c%d was sent at %v with response timeout %v but completed at %v", c, lastSend.at, timeouts[c], cp.at)
+		if timing && firstSend != nil && cp.at > firstSend.at+w.tmo(c)+eps {
+			fail("completed-after-timeout", "c%d was first sent at %v with response timeout %v but completed at %v", c, firstSend.at, w.tmo(c), cp.at)
 		}
 
 		var sl map[int]cc.MesosCommandResponse
@@ -648,7 +723,7 @@ func (w *world) oracle() (out []vrt.Violation) {
 			if snd == nil {
 				continue // already reported under send-count
 			}
-			deadline := snd.at + timeouts[c]
+			deadline := snd.at + w.tmo(c)
 			// replies attributed to (c,t): carry c's id and come from t
 			var own []*delivery
 			mustReply := false
@@ -736,6 +811,12 @@ func main() {
 		scenario(params{name: "direct2", targets: [][]int{T0, T0}, alphabet: alphaCore, direct: true,
 			q: vrt.Bounds{Dev: 2, Seconds: 120}, t: vrt.Bounds{Dev: 3, Seconds: 900},
 			doc: "2 concurrent Servent.RunCommand calls (different commands, same target), 8^2 assignments x arrival orders"}),
+		scenario(params{name: "hook1x2", targets: [][]int{T01}, alphabet: alphaFull, kinds: []string{"hook"}, defaultTimeout: true,
+			q: vrt.Bounds{Dev: 1, Seconds: 120}, t: vrt.Bounds{Dev: 3, Seconds: 900},
+			doc: "queue, 1 TriggerHook command x 2 targets with the response timeout it is created with (90 s), 10^2 assignments x arrival orders"}),
+		scenario(params{name: "mix2x1", targets: [][]int{T0, T0}, alphabet: alphaCore, kinds: []string{"transition", "hook"},
+			q: vrt.Bounds{Dev: 1, Seconds: 120}, t: vrt.Bounds{Dev: 3, Seconds: 900},
+			doc: "queue, a transition command and a TriggerHook command to the same target, 8^2 assignments"}),
 		scenario(params{name: "race1x1", targets: [][]int{T0}, alphabet: alphaRace, timerRace: true,
 			q: vrt.Bounds{Dev: 3, Seconds: 60}, t: vrt.Bounds{Dev: 4, Seconds: 600},
 			doc: "queue, 1x1, timers may fire at any scheduling point (reply racing the timeout); no timing clauses"}),
